@@ -35,7 +35,8 @@ Codes == (-35..-2) \cup (0..9)       \* -1 (EEAV_INVALID_RFC) is never a result 
 x == <<120>>
 RowOfClass(c) == {i \in 1..NRows : ClassOfRow(TldRows[i]) = c}
 ClassDomains == { JoinWith(<<x, TldRows[CHOOSE i \in RowOfClass(c) : TRUE][1]>>, DOT) : c \in {c \in TldClasses : RowOfClass(c) # {}} }
-Domains == ClassDomains \cup { JoinWith(<<S_example, S_org>>, DOT), S_localhost, <<120, DOT, 122, 122, 122, 113>>, <<120>>,
+UpB(b) == IF b \in 97..122 THEN b - 32 ELSE b
+Domains == ClassDomains \cup { [i \in 1..Len(dd) |-> UpB(dd[i])] : dd \in ClassDomains } \cup { JoinWith(<<S_example, S_org>>, DOT), S_localhost, <<120, DOT, 122, 122, 122, 113>>, <<120>>,
                                <<LBR, 49, DOT, 50, DOT, 51, DOT, 52, RBR>>, <<LBR>> \o TagIPv6 \o <<COLON, COLON, 49, RBR>>, <<120, HYPHEN>> }
 DomSeq == SetToSeq(Domains)
 
